@@ -326,7 +326,7 @@ func (ex *Exec) strConst(s string) Term {
 	if t, ok := ex.strs[s]; ok {
 		return t
 	}
-	t := ex.vc.declare(fmt.Sprintf("str!%d", len(ex.strs)+1), SInt)
+	t := ex.vc.declare(fmt.Sprintf("strc!%d", len(ex.strs)+1), SInt)
 	ex.strs[s] = t
 	// string constants live in a negative id space, disjoint from allocated ones
 	ex.vc.assert(Eq(t, Int(int64(-(len(ex.strs))))))
@@ -430,6 +430,8 @@ type retRec struct {
 	st   *State
 	vals []Val
 	pos  token.Pos
+	// constNilErr: the last result is the constant nil (a "success" return)
+	constNilErr bool
 }
 
 type Frame struct {
